@@ -760,6 +760,8 @@ theorem sinv_step {g : Ghost} {s : St} (h : SInv g s) (op : Op) (hok : OpOk g op
   | own a owned => exact ⟨h.congr rfl rfl rfl rfl, hnil rfl⟩
   | markAbort marks => exact ⟨h.congr rfl rfl rfl rfl, hnil rfl⟩
   | nulldel a => exact ⟨h.congr rfl rfl rfl rfl, hnil rfl⟩
+  | typed b t => exact ⟨h.congr rfl rfl rfl rfl, hnil rfl⟩
+  | raises a => exact ⟨h.congr rfl rfl rfl rfl, hnil rfl⟩
   | delNull =>
     obtain ⟨h1, h2, _, _, h5, h6, _⟩ := gcRemNull_fields Cfg.current s
     exact ⟨h.congr h1 h2 h5 h6, hnil h5⟩
